@@ -45,14 +45,15 @@ GroupAllowed(st, t, ver, g) ==
   THEN (g # "" => g \in st.curves \cup st.dhGroups)
   \* finite-field DHE in TLS <= 1.2: a group the harness recognised as an RFC 7919 group must be enabled;
   \* ("custom-<bits>" = another prime: allowed only where RFC 7919 negotiation has nothing to offer, see FfdheRule)
-  ELSE IF Kex(t) \in {"dhe_rsa", "dhe_dsa", "dh_anon"} /\ g \in {"ffdhe2048", "ffdhe3072", "ffdhe4096", "ffdhe6144", "ffdhe8192"}
+  \* (SSLv3 has no supported_groups extension: nothing is negotiated there)
+  ELSE IF ver >= 1 /\ Kex(t) \in {"dhe_rsa", "dhe_dsa", "dh_anon"} /\ g \in {"ffdhe2048", "ffdhe3072", "ffdhe4096", "ffdhe6144", "ffdhe8192"}
   THEN g \in st.dhGroups
   ELSE TRUE
 
 \* RFC 7919: when the client's supported_groups names finite-field groups and the server enables one of them,
 \* the server uses such a common group (never a prime outside both policies)
 FfdheRule(cs, ss, v) ==
-  (v.ver < 4 /\ Kex(v.tokens) \in {"dhe_rsa", "dhe_dsa", "dh_anon"} /\ v.group # "" /\ (cs.dhGroups \cap ss.dhGroups) # {})
+  (v.ver < 4 /\ v.ver >= 1 /\ Kex(v.tokens) \in {"dhe_rsa", "dhe_dsa", "dh_anon"} /\ v.group # "" /\ (cs.dhGroups \cap ss.dhGroups) # {})
      => v.group \in (cs.dhGroups \cap ss.dhGroups)
 
 WithinPolicy(st, v, isClient) ==
@@ -70,7 +71,7 @@ WithinPolicy(st, v, isClient) ==
 
 \* record size limits as RFC 8449 defines them from the two settings
 LimitToward(receiverRsl, senderRsl, ver) ==
-  IF ver > 0 /\ receiverRsl > 0 /\ senderRsl > 0
+  IF receiverRsl > 0 /\ senderRsl > 0
   THEN MinN(16384, receiverRsl - (IF ver = 4 THEN 1 ELSE 0)) ELSE 16384
 
 Outcome(cs, ss, c, s) ==
@@ -78,8 +79,11 @@ Outcome(cs, ss, c, s) ==
   /\ WithinPolicy(cs, c, TRUE) /\ WithinPolicy(ss, s, FALSE)
   /\ FfdheRule(cs, ss, c)
   /\ c.ver = Max(cs.vers \cap ss.vers)                         \* highest common version: no self-inflicted downgrade
-  /\ c.sendLimit = LimitToward(ss.rsl, cs.rsl, c.ver)
-  /\ s.sendLimit = LimitToward(cs.rsl, ss.rsl, c.ver)
+  \* SSLv3 defines no extensions: a ClientHello that also offers TLS carries them and tlslite-ng servers honour
+  \* them, an SSLv3-only ClientHello has none - either way both ends must hold the same pair of limits
+  /\ \/ /\ c.sendLimit = LimitToward(ss.rsl, cs.rsl, c.ver)
+        /\ s.sendLimit = LimitToward(cs.rsl, ss.rsl, c.ver)
+     \/ c.ver = 0 /\ c.sendLimit = 16384 /\ s.sendLimit = 16384
 
 \* ---- compatible settings must connect (C19b): a shared version and, for the highest one, a
 \* suite both allow that the server's credentials can serve, a group and EMS compatibility
